@@ -179,3 +179,14 @@ PLANS["C16"] = dict(
     clauses={"clique equation exact for heterogeneous neighbour values": "bounded (polynomial identity, tau <= 5/6)", "cycle equation exact": "bounded (n <= 9/11)",
              "coefficient = number of connected labelled graphs (both implementations)": "bounded (enumeration n <= 6/7; identity n <= 12/14)", "connected-subgraph counter exact": "bounded (atlas <= 5/6 vertices)"},
     assumptions=["M-HP: the component identity characterises the number of connected labelled graphs (textbook)"], not_decided=["sizes beyond the bound"])
+
+PLANS["C17"] = dict(
+    level="exploration", bounded="c17",
+    modules=[dict(name="mp")],
+    technique="bounded (labelled stand-in): run-time postconditions of the real theoretical() on a corpus of cover-labelled networks against an independent sweep with exact per-motif expectations, bounds, monotonicity over a phi grid and query-history independence; structural contract obligations over the real AST for the history clause",
+    level_text="The driver is a floating-point fixed-point iteration over string-parsed labels on networkx; its analytic clauses (bounds, monotonicity) are statements about an iteration and the bookkeeping clauses need string and graph reasoning beyond the installed solvers' reach for this code, so the deciding check is bounded. The history clause has a discharged sufficient condition (message table rebuilt from the graph at the start of every query with the uniform 0.5 start; evaluator holds structural caches only).",
+    level_note="Bound: seeded corpus of networks (<= 14 vertices quick, <= 18 thorough) glued from K2,K3,K4,C4,C5,diamond,chorded C5,paw with motifs pairwise sharing <= 1 vertex, tree-like and ring arrangements; phi grid 6/21 points; iterations {1,4,10}/{1,5,25}; tolerance 1e-9 against the independent sweep.",
+    explanation="BOUNDED: theoretical(phi) equals an independent implementation of the motif-cover iteration (same start, same edge order, each motif's exact brute-force expectation, each other motif of a neighbour counted once) to 1e-9; 0 at phi = 0; within [0,1]; non-decreasing over the grid; reused objects give the answers of fresh objects in any query order. STRUCTURAL (discharged): message_table_rebuilt_per_query, uniform_start, evaluator caches structural.",
+    clauses={"1 minus vertex average of products of per-motif failure probabilities at the fixed point reached from 0.5": "bounded (independent sweep, finite iterations)", "in [0,1], 0 at phi=0, non-decreasing": "bounded (grid)",
+             "repeated queries in any order equal fresh objects": "structural sufficient condition discharged + bounded histories"},
+    not_decided=["analytic clauses beyond the corpus and the grid; convergence of the iteration"])
